@@ -20,6 +20,15 @@ SUP = 'adsg_core/graph/sup/dsg.py:'
 CH = 'adsg_core/graph/choices.py:'
 
 CASES = [
+    (CH + 'get_mod_apply_connection_choice', 'break', "            edge_key[edge] += 1\n", "            pass\n"),
+    (CH + 'get_mod_apply_connection_choice', 'break', "if edge[0] not in in_nodes or (edge[1] is not None and edge[1] not in out_nodes):", "if edge[0] not in in_nodes and (edge[1] is not None and edge[1] not in out_nodes):"),
+    (CH + 'get_mod_apply_connection_choice', 'break', "removed_edges = set(choice_node.get_excluded_edges(graph)) | set(choice_node.get_deriving_edges(graph))", "removed_edges = set(choice_node.get_excluded_edges(graph))"),
+    (CH + 'get_mod_apply_connection_choice', 'break', "        if edge[1] is not None:\n            added_edges.add(", "        if edge[1] is not None and edge_key[edge] == 0:\n            added_edges.add("),
+    (CH + 'get_mod_apply_connection_choice', 'keep', "    removed_nodes = {choice_node}\n\n    # Create edges with correct keys\n    added_edges = set()", "    added_edges = set()\n    removed_nodes = {choice_node}"),
+    (NODES + 'ConnectionChoiceNode.get_excluded_edges', 'break', "iter_out_edges(graph, node, edge_type=EdgeType.EXCLUDES)]", "iter_out_edges(graph, node, edge_type=EdgeType.INCOMPATIBILITY)]"),
+    (NODES + 'ConnectionChoiceNode.get_excluded_edges', 'break', "            excluded += [edge for edge in iter_out_edges(graph, node, edge_type=EdgeType.EXCLUDES)]", "            excluded = [edge for edge in iter_out_edges(graph, node, edge_type=EdgeType.EXCLUDES)]"),
+    (NODES + 'ConnectionChoiceNode.get_deriving_edges', 'break', "if edge[1] in tgt_nodes and get_edge_type(edge) == EdgeType.DERIVES:", "if get_edge_type(edge) == EdgeType.DERIVES:"),
+    (NODES + 'ConnectionChoiceNode.get_deriving_edges', 'break', "if edge[1] in tgt_nodes and get_edge_type(edge) == EdgeType.DERIVES:", "if edge[1] in tgt_nodes and get_edge_type(edge) != EdgeType.CONNECTS:"),
     (CH + 'get_mod_apply_selection_choice@until-incompatibility', 'break', 'added_edges = {get_edge(in_edge[0], target_option_node) for in_edge in in_edges}', 'added_edges = {get_edge(in_edge[1], target_option_node) for in_edge in in_edges}'),
     (CH + 'get_mod_apply_selection_choice@until-incompatibility', 'break', '    removed_nodes.add(choice_node)\n', '    pass\n'),
     (CH + 'get_mod_apply_selection_choice@until-incompatibility', 'break', 'if target_option_node not in option_nodes:', 'if target_option_node in option_nodes:'),
